@@ -29,6 +29,9 @@ pub struct Site {
     pub name: &'static str,
     /// value names; index 0 is the minimal baseline
     pub vals: &'static [&'static str],
+    /// the first `core` values are the alphabet of the quick tier and of the main space; the values
+    /// after them are the extended alphabet that only the thorough-only spaces enumerate
+    pub core: usize,
     /// value index in the full baseline
     pub full: usize,
     /// lowest version index for which the full baseline switches the site on (else stays at 0)
@@ -40,14 +43,14 @@ pub struct Site {
 }
 
 macro_rules! site {
-    ($n:expr, $v:expr, $f:expr) => {
-        Site { name: $n, vals: $v, full: $f, full_from: 0, full_to: 5, per_chunk: false }
+    ($n:expr, $v:expr, $c:expr, $f:expr) => {
+        Site { name: $n, vals: $v, core: $c, full: $f, full_from: 0, full_to: 5, per_chunk: false }
     };
-    ($n:expr, $v:expr, $f:expr, chunk) => {
-        Site { name: $n, vals: $v, full: $f, full_from: 0, full_to: 5, per_chunk: true }
+    ($n:expr, $v:expr, $c:expr, $f:expr, chunk) => {
+        Site { name: $n, vals: $v, core: $c, full: $f, full_from: 0, full_to: 5, per_chunk: true }
     };
-    ($n:expr, $v:expr, $f:expr, $from:expr) => {
-        Site { name: $n, vals: $v, full: $f, full_from: $from, full_to: 5, per_chunk: false }
+    ($n:expr, $v:expr, $c:expr, $f:expr, $from:expr) => {
+        Site { name: $n, vals: $v, core: $c, full: $f, full_from: $from, full_to: 5, per_chunk: false }
     };
 }
 
@@ -77,35 +80,46 @@ pub const S_MTXF: usize = 22;
 pub const S_MAMP: usize = 23;
 pub const S_MTXP: usize = 24;
 pub const S_BLEND: usize = 25;
-pub const NSITES: usize = 26;
+pub const S_CFLAGS: usize = 26;
+pub const NSITES: usize = 27;
 
+// Values after the first `core` ones (third macro argument) are the extended alphabet.
 pub const SITES: [Site; NSITES] = [
-    site!("textures", &["one", "three_shared_prefix", "none", "long255_plus_two"], 1),
-    site!("models", &["none", "one", "three_shared_prefix"], 2),
-    site!("wmos", &["none", "one", "three_shared_prefix"], 2),
-    site!("doodads", &["none", "one", "three"], 2),
-    site!("wmo_placements", &["none", "one", "three"], 2),
-    site!("mcnk", &["one", "auto256", "two_first_last", "all256"], 2),
-    site!("stagger", &["off", "on"], 0, chunk),
-    site!("heights", &["off", "on"], 1, chunk),
-    site!("normals", &["off", "on"], 1, chunk),
-    site!("layers", &["none", "one", "four", "empty"], 2, chunk),
-    site!("alpha", &["none", "u4096", "u2048", "rle", "mixed", "empty"], 4, chunk),
-    site!("shadow", &["off", "on"], 1, chunk),
-    site!("vertex_colors", &["off", "on"], 1, chunk),
-    site!("vertex_lighting", &["off", "on"], 1, chunk),
-    site!("sound", &["none", "one", "three", "empty"], 2, chunk),
-    site!("refs", &["none", "doodad_only", "doodad_and_wmo", "empty"], 2, chunk),
-    site!("split_refs", &["none", "mcrd", "mcrw", "both"], 0, chunk),
-    site!("liquid", &["none", "water", "magma"], 1, chunk),
-    site!("extras", &["none", "mcmt", "mcdd", "mcbb"], 0, chunk),
-    Site { name: "water", vals: &["none", "c0", "c255", "c0_17_255", "present_empty"], full: 3, full_from: 3, full_to: 5, per_chunk: false },
-    Site { name: "water_fmt", vals: &["plain_attrs", "lvf0_bitmap", "lvf1_full", "lvf2_bitmap_attrs", "lvf3", "two_layers", "bitmap_no_vertices_attrs", "two_layers_last_bitmap_only"], full: 5, full_from: 3, full_to: 5, per_chunk: false },
-    site!("flight_bounds", &["off", "on"], 1, 2),
-    site!("mtxf", &["none", "per_texture"], 1, 3),
-    site!("mamp", &["off", "on"], 1, 4),
-    site!("mtxp", &["off", "per_texture"], 1, 5),
-    site!("blend_mesh", &["off", "two_batches"], 1, 5),
+    site!("textures", &["one", "three_shared_prefix", "none", "long255_plus_two", "many300", "utf8_two"], 4, 1),
+    site!("models", &["none", "one", "three_shared_prefix", "many300"], 3, 2),
+    site!("wmos", &["none", "one", "three_shared_prefix", "many300"], 3, 2),
+    site!("doodads", &["none", "one", "three", "many1821"], 3, 2),
+    site!("wmo_placements", &["none", "one", "three", "many1025"], 3, 2),
+    site!("mcnk", &["one", "auto256", "two_first_last", "all256", "three", "seventeen", "n255", "n257"], 4, 2),
+    site!("stagger", &["off", "on"], 2, 0, chunk),
+    site!("heights", &["off", "on"], 2, 1, chunk),
+    site!("normals", &["off", "on"], 2, 1, chunk),
+    site!("layers", &["none", "one", "four", "empty", "two", "three"], 4, 2, chunk),
+    site!("alpha", &["none", "u4096", "u2048", "rle", "mixed", "empty", "odd3"], 6, 4, chunk),
+    site!("shadow", &["off", "on"], 2, 1, chunk),
+    site!("vertex_colors", &["off", "on"], 2, 1, chunk),
+    site!("vertex_lighting", &["off", "on"], 2, 1, chunk),
+    site!("sound", &["none", "one", "three", "empty", "many40"], 4, 2, chunk),
+    site!("refs", &["none", "doodad_only", "doodad_and_wmo", "empty", "wmo_only", "many150"], 4, 2, chunk),
+    site!("split_refs", &["none", "mcrd", "mcrw", "both"], 4, 0, chunk),
+    site!("liquid", &["none", "water", "magma", "ocean", "slime", "flat_water"], 3, 1, chunk),
+    site!("extras", &["none", "mcmt", "mcdd", "mcbb", "mcmt_mcdd", "mcmt_mcbb", "mcdd_mcbb", "all_three"], 4, 0, chunk),
+    Site { name: "water", vals: &["none", "c0", "c255", "c0_17_255", "present_empty", "all256", "c0_17attrs_255", "vec1_c0"], core: 5, full: 3, full_from: 3, full_to: 5, per_chunk: false },
+    Site {
+        name: "water_fmt",
+        vals: &["plain_attrs", "lvf0_bitmap", "lvf1_full", "lvf2_bitmap_attrs", "lvf3", "two_layers", "bitmap_no_vertices_attrs", "two_layers_last_bitmap_only", "three_layers", "lvf0_full_bitmap64"],
+        core: 8,
+        full: 5,
+        full_from: 3,
+        full_to: 5,
+        per_chunk: false,
+    },
+    site!("flight_bounds", &["off", "on"], 2, 1, 2),
+    site!("mtxf", &["none", "per_texture", "one_fewer", "two_more"], 2, 1, 3),
+    site!("mamp", &["off", "on"], 2, 1, 4),
+    site!("mtxp", &["off", "per_texture", "two_more"], 2, 1, 5),
+    site!("blend_mesh", &["off", "two_batches", "one_batch", "big"], 2, 1, 5),
+    site!("chunk_flags", &["none", "impassable_nofix", "high_res_holes"], 1, 0, chunk),
 ];
 
 #[derive(Clone, Debug, PartialEq, Eq, Hash)]
@@ -187,6 +201,10 @@ fn names(kind: &str, ext: &str, n: &str) -> Vec<String> {
             let stem = "L".repeat(255 - kind.len() - 2 - ext.len());
             vec![format!("{kind}/{stem}.{ext}"), format!("{kind}/b.{ext}"), format!("{kind}/B.{}", ext.to_uppercase())]
         }
+        // 300 names of ~220 bytes: the name block (and every name offset after the 297th) exceeds 65535
+        "many300" => (0..300).map(|k| format!("{kind}/{k:03}_{}.{ext}", "m".repeat(200 + k % 7))).collect(),
+        // multi-byte UTF-8 names (2- and 3-byte sequences), upper-case extension on the second
+        "utf8_two" => vec![format!("{kind}/\u{e9}t\u{e9}_\u{4e16}\u{754c}.{ext}"), format!("{kind}/\u{c4}\u{d6}\u{dc}.{}", ext.to_uppercase())],
         _ => unreachable!(),
     }
 }
@@ -231,6 +249,12 @@ fn make_chunk(spec: &Spec, i: usize, n: usize, ntex: usize) -> McnkChunk {
         }
     };
     let mut flags = 0u32;
+    let cflags = on(S_CFLAGS);
+    match cflags {
+        "impassable_nofix" => flags |= 0x2 | 0x8000,
+        "high_res_holes" => flags |= 0x200, // the bit wow-adt's McnkFlags::high_res_holes() tests
+        _ => {}
+    }
 
     let heights = (on(S_HEIGHTS) == "on").then(|| McvtChunk { heights: (0..145).map(|j| f(i, j)).collect() });
     let normals = (on(S_NORMALS) == "on").then(|| McnrChunk {
@@ -244,6 +268,8 @@ fn make_chunk(spec: &Spec, i: usize, n: usize, ntex: usize) -> McnkChunk {
         "one" => Some(1),
         "four" => Some(4),
         "empty" => Some(0),
+        "two" => Some(2),
+        "three" => Some(3),
         _ => unreachable!(),
     };
     // alpha maps: one per layer above the base layer (at least one when alpha data is requested)
@@ -264,6 +290,8 @@ fn make_chunk(spec: &Spec, i: usize, n: usize, ntex: usize) -> McnkChunk {
                 "u4096" => alpha_data.extend((0..4096).map(|k| ((k * 7 + i + m) % 256) as u8)),
                 "u2048" => alpha_data.extend((0..2048).map(|k| ((k * 13 + i * 3 + m) % 256) as u8)),
                 "rle" => alpha_data.extend(rle_map((i * 5 + m) as u8)),
+                // three bytes per map: every following sub-chunk starts at an odd offset
+                "odd3" => alpha_data.extend([i as u8, 0x55, 0xAA ^ m as u8]),
                 _ => unreachable!(),
             }
         }
@@ -305,6 +333,7 @@ fn make_chunk(spec: &Spec, i: usize, n: usize, ntex: usize) -> McnkChunk {
             let n = match s {
                 "one" => 1,
                 "three" => 3,
+                "many40" => 40,
                 _ => 0,
             };
             Some(McseChunk {
@@ -332,6 +361,15 @@ fn make_chunk(spec: &Spec, i: usize, n: usize, ntex: usize) -> McnkChunk {
             Some(McrfChunk { references: vec![i as u32, 2, 40 + i as u32] })
         }
         "empty" => Some(McrfChunk { references: vec![] }),
+        "wmo_only" => {
+            n_map_obj_refs = 2;
+            Some(McrfChunk { references: vec![40 + i as u32, 41] })
+        }
+        "many150" => {
+            n_doodad_refs = 100;
+            n_map_obj_refs = 50;
+            Some(McrfChunk { references: (0..150u32).map(|k| k * 3 + i as u32).collect() })
+        }
         _ => unreachable!(),
     };
     let sr = on(S_SPLITREFS);
@@ -348,17 +386,29 @@ fn make_chunk(spec: &Spec, i: usize, n: usize, ntex: usize) -> McnkChunk {
     let liquid = match on(S_LIQUID) {
         "none" => None,
         k => {
-            let lt = if k == "magma" {
-                flags |= 0x10;
-                LiquidType::Magma
-            } else {
-                flags |= 0x04; // river
-                LiquidType::Water
+            let lt = match k {
+                "magma" => {
+                    flags |= 0x10;
+                    LiquidType::Magma
+                }
+                "ocean" => {
+                    flags |= 0x08;
+                    LiquidType::Ocean
+                }
+                "slime" => {
+                    flags |= 0x20;
+                    LiquidType::Slime
+                }
+                _ => {
+                    flags |= 0x04; // river
+                    LiquidType::Water
+                }
             };
+            let flat = k == "flat_water";
             Some(MclqChunk {
-                min_height: -5.0 - i as f32,
-                max_height: 10.5,
-                vertices: (0..81).map(|j| LiquidVertex { union_data: [j as u8, i as u8, 3, 4], height: f(i, j + 1) }).collect(),
+                min_height: if flat { 3.0 } else { -5.0 - i as f32 },
+                max_height: if flat { 3.0 } else { 10.5 },
+                vertices: (0..81).map(|j| LiquidVertex { union_data: [j as u8, i as u8, 3, 4], height: if flat { 3.0 } else { f(i, j + 1) } }).collect(),
                 tile_flags: {
                     let mut t = [0u8; 64];
                     for (k, x) in t.iter_mut().enumerate() {
@@ -371,14 +421,25 @@ fn make_chunk(spec: &Spec, i: usize, n: usize, ntex: usize) -> McnkChunk {
         }
     };
     let ex = on(S_EXTRAS);
-    let materials = (ex == "mcmt").then(|| McmtChunk { material_ids: [1, 2, i as u8, 255] });
-    let doodad_disable = (ex == "mcdd").then(|| {
+    let (ex_mcmt, ex_mcdd, ex_mcbb) = match ex {
+        "none" => (false, false, false),
+        "mcmt" => (true, false, false),
+        "mcdd" => (false, true, false),
+        "mcbb" => (false, false, true),
+        "mcmt_mcdd" => (true, true, false),
+        "mcmt_mcbb" => (true, false, true),
+        "mcdd_mcbb" => (false, true, true),
+        "all_three" => (true, true, true),
+        _ => unreachable!(),
+    };
+    let materials = ex_mcmt.then(|| McmtChunk { material_ids: [1, 2, i as u8, 255] });
+    let doodad_disable = ex_mcdd.then(|| {
         let mut d = [0u8; 64];
         d[0] = 0x81;
         d[63] = i as u8 | 1;
         McddChunk { disable: d }
     });
-    let blend_batches = (ex == "mcbb").then(|| McbbChunk {
+    let blend_batches = ex_mcbb.then(|| McbbChunk {
         batches: vec![BlendBatch { mbmh_index: 0, index_count: 3, index_first: 0, vertex_count: 3, vertex_first: 0 }, BlendBatch { mbmh_index: 1, index_count: 6, index_first: 3, vertex_count: 4, vertex_first: 3 }],
     });
 
@@ -390,7 +451,7 @@ fn make_chunk(spec: &Spec, i: usize, n: usize, ntex: usize) -> McnkChunk {
         index_y: iy,
         n_layers: 9,
         n_doodad_refs,
-        multipurpose_field: McnkHeader::multipurpose_from_offsets(stale, stale + 4),
+        multipurpose_field: if cflags == "high_res_holes" { McnkHeader::multipurpose_from_holes(0x8040_2010_0804_0201 ^ ((i as u64) << 20)) } else { McnkHeader::multipurpose_from_offsets(stale, stale + 4) },
         ofs_layer: stale,
         ofs_refs: stale,
         ofs_alpha: stale,
@@ -535,6 +596,20 @@ fn water_entry(fmt: &str, ci: usize) -> Mh2oEntry {
             let va = hu(&a);
             Mh2oEntry { header, instances: vec![a, b], vertex_data: vec![Some(va), None], exists_bitmaps: vec![None, Some(0b1001)], attributes: None }
         }
+        // three layers: bitmap + vertices, neither, bitmap + vertices of the widest format; attributes
+        "three_layers" => {
+            let a = inst(1, 0, 0, 0, 2, 2);
+            let b = inst(5, 0, 1, 1, 3, 3);
+            let c3 = inst(3, 3, 4, 4, 4, 4);
+            let (va, vc) = (hd(&a), hud(&c3));
+            Mh2oEntry { header, instances: vec![a, b, c3], vertex_data: vec![Some(va), None, Some(vc)], exists_bitmaps: vec![Some(0b1011), None, Some(0xFFFF)], attributes: attrs }
+        }
+        // whole chunk, all 81 vertices, bitmap using all 64 bits (top bit set)
+        "lvf0_full_bitmap64" => {
+            let i = inst(1, 0, 0, 0, 8, 8);
+            let vd = hd(&i);
+            Mh2oEntry { header, instances: vec![i], vertex_data: vec![Some(vd)], exists_bitmaps: vec![Some(u64::MAX ^ (1 << 17))], attributes: None }
+        }
         _ => unreachable!(),
     }
 }
@@ -546,7 +621,10 @@ pub fn make_input(spec: &Spec) -> Input {
     let count = |s: &str| match s {
         "none" => 0,
         "one" => 1,
-        _ => 3,
+        "three" => 3,
+        "many1821" => 1821, // 1821 * 36 bytes > 65535
+        "many1025" => 1025, // 1025 * 64 bytes > 65535
+        _ => unreachable!(),
     };
     let doodads = (0..count(spec.val(S_DOODADS)))
         .map(|k| DoodadPlacement {
@@ -554,7 +632,7 @@ pub fn make_input(spec: &Spec) -> Input {
             unique_id: 0xA000_0000 + k as u32,
             position: [17066.0 + k as f32, -0.0, f(k, 2)],
             rotation: [0.0, 90.0 * k as f32, -180.0],
-            scale: 1024 + 512 * k as u16,
+            scale: 1024 + 512 * (k % 8) as u16,
             flags: if k == 2 { 0x1000 } else { 0 },
         })
         .collect();
@@ -577,6 +655,10 @@ pub fn make_input(spec: &Spec) -> Input {
         "auto256" => None,
         "two_first_last" => Some(2),
         "all256" => Some(256),
+        "three" => Some(3),
+        "seventeen" => Some(17),
+        "n255" => Some(255),
+        "n257" => Some(257),
         _ => unreachable!(),
     };
     let mcnk = n.map(|n| (0..n).map(|i| make_chunk(spec, i, n, textures.len())).collect());
@@ -585,24 +667,65 @@ pub fn make_input(spec: &Spec) -> Input {
         "none" => None,
         w => {
             let mut c = Mh2oChunk::new();
+            let all: Vec<usize> = (0..256).collect();
             let set: &[usize] = match w {
-                "c0" => &[0],
+                "c0" | "vec1_c0" => &[0],
                 "c255" => &[255],
                 "c0_17_255" => &[0, 17, 255],
+                "c0_17attrs_255" => &[0, 255],
+                "all256" => &all,
                 _ => &[],
             };
             for &ci in set {
                 c.entries[ci] = water_entry(spec.val(S_WATERFMT), ci);
             }
+            if w == "c0_17attrs_255" {
+                // a chunk with liquid attributes but no liquid layer, between two chunks with liquid
+                c.entries[17] = Mh2oEntry {
+                    header: Mh2oHeader { offset_instances: 0x999, layer_count: 7, offset_attributes: 0x888 },
+                    instances: vec![],
+                    vertex_data: vec![],
+                    exists_bitmaps: vec![],
+                    attributes: Some(Mh2oAttributes { fishable: 0x0102_0304_0506_0708, deep: 0xF0E0_D0C0_B0A0_9080 }),
+                };
+            }
+            if w == "vec1_c0" {
+                // the entry list is a plain Vec: one entry only, the writer has to pad to 256 headers
+                c.entries.truncate(1);
+            }
             Some(c)
         }
     };
-    let mtxf = (spec.val(S_MTXF) == "per_texture").then(|| MtxfChunk { flags: (0..textures.len()).map(|k| [0x1, 0x0, 0x2, 0x10][k % 4]).collect() });
+    let ntex_adj = |v: &str| match v {
+        "one_fewer" => textures.len().saturating_sub(1),
+        "two_more" => textures.len() + 2,
+        _ => textures.len(),
+    };
+    let mtxf = (spec.val(S_MTXF) != "none").then(|| MtxfChunk { flags: (0..ntex_adj(spec.val(S_MTXF))).map(|k| [0x1, 0x0, 0x2, 0x10][k % 4]).collect() });
     let mamp = (spec.val(S_MAMP) == "on").then_some(MampChunk { amplifier: 0x0102_0304 });
-    let mtxp = (spec.val(S_MTXP) == "per_texture").then(|| MtxpChunk {
-        entries: (0..textures.len()).map(|k| TextureHeightParams { flags: k as u32, height_scale: 0.5 * k as f32, height_offset: 1.0, padding: 0 }).collect(),
+    let mtxp = (spec.val(S_MTXP) != "off").then(|| MtxpChunk {
+        entries: (0..ntex_adj(spec.val(S_MTXP))).map(|k| TextureHeightParams { flags: k as u32, height_scale: 0.5 * k as f32, height_offset: 1.0, padding: 0 }).collect(),
     });
-    let blend = (spec.val(S_BLEND) == "two_batches").then(|| {
+    let blend = match spec.val(S_BLEND) {
+        "off" | "two_batches" => None,
+        "one_batch" => Some((
+            MbmhChunk { entries: vec![MbmhEntry { map_object_id: 21, texture_id: 0, unknown: 0, mbmi_count: 3, mbnv_count: 3, mbmi_start: 0, mbnv_start: 0 }] },
+            MbbbChunk { entries: vec![MbbbEntry { map_object_id: 21, min: [-1.0, -0.0, 0.5], max: [1.0, 2.0, 3.0] }] },
+            MbnvChunk { vertices: (0..3).map(|k| MbnvVertex { position: [k as f32, 2.0, 3.0], normal: [0.0, 1.0, 0.0], uv: [0.5, 0.25 * k as f32], color: [[k, 1, 2, 3], [4, 5, 6, 7], [8, 9, 10, k]] }).collect() },
+            MbmiChunk { indices: vec![0, 1, 2] },
+        )),
+        // 1500 vertices (44 bytes each) and 40002 indices: MBNV and MBMI both exceed 65535 bytes
+        "big" => Some((
+            MbmhChunk { entries: vec![MbmhEntry { map_object_id: 31, texture_id: 0, unknown: 1, mbmi_count: 40002, mbnv_count: 1500, mbmi_start: 0, mbnv_start: 0 }] },
+            MbbbChunk { entries: vec![MbbbEntry { map_object_id: 31, min: [-9.0; 3], max: [9.0; 3] }] },
+            MbnvChunk {
+                vertices: (0..1500u32).map(|k| MbnvVertex { position: [k as f32, f(k as usize, 1), -1.0], normal: [0.0, 0.0, 1.0], uv: [k as f32 / 1500.0, 1.0], color: [[k as u8, 1, 2, 3], [4, 5, (k >> 8) as u8, 7], [255, 254, 253, 252]] }).collect(),
+            },
+            MbmiChunk { indices: (0..40002u32).map(|k| (k * 7 % 1500) as u16).collect() },
+        )),
+        _ => unreachable!(),
+    };
+    let blend = blend.or_else(|| (spec.val(S_BLEND) == "two_batches").then(|| {
         (
             MbmhChunk {
                 entries: vec![
@@ -616,7 +739,7 @@ pub fn make_input(spec: &Spec) -> Input {
             },
             MbmiChunk { indices: vec![0, 1, 2, 3, 4, 5, 3, 5, 6] },
         )
-    });
+    }));
     Input { version: VERSIONS[spec.version].1, textures, models, wmos, doodads, wmo_placements, mcnk, flight_bounds, water, mtxf, mamp, mtxp, blend }
 }
 
